@@ -19,6 +19,14 @@ VERIF = os.path.dirname(os.path.abspath(__file__))
 REPO = "/repo"
 
 
+# seeds that this script cannot show as caught, and why (see DESIGN 9.4)
+EXPECTED_NOT_CAUGHT = {
+    "c17-s13": "out of reach: needs schemas nested > 100 levels (recorded as a limit)",
+    "c09-s9": "the patch only applies to its old base commit, where the unrepaired tree (before 08c3f04) already shows the same signature",
+    "c09-s15": "the patch only applies to its old base commit, where the unrepaired tree (before 2616327) already shows the same signature",
+}
+
+
 def sh(*a, **kw):
     return subprocess.run(a, capture_output=True, text=True, **kw)
 
@@ -95,7 +103,10 @@ def main():
     sh("git", "-C", REPO, "worktree", "prune")
     missed = [r for r in rows if r[3] != "caught"]
     print("seeds=%d caught=%d not-caught=%d" % (len(rows), len(rows) - len(missed), len(missed)))
-    return 1 if missed else 0
+    unexpected = [r for r in missed if r[0] not in EXPECTED_NOT_CAUGHT]
+    for r in missed:
+        print("  %-8s %s" % (r[0], EXPECTED_NOT_CAUGHT.get(r[0], "UNEXPECTED")))
+    return 1 if unexpected else 0
 
 
 if __name__ == "__main__":
